@@ -35,11 +35,11 @@ def t3(sx, nbr, nbw, nmaxb, oldlens, lens, emulated, ic_code=0xEE, concrete=Fals
     return ndefflow.roundtrip(sx, w, n)
 
 
-def t4(sx, ver, mle, mlc, mfs, oldlens, lens, typ, fsci):
+def t4(sx, ver, mle, mlc, mfs, oldlens, lens, typ, fsci, aid_v=2):
     oldlen = sx.pick("oldlen", oldlens)
     mle = sx.int("mle", mle[0], mle[1])
     mlc = sx.int("mlc", mlc[0], mlc[1])
-    w = worlds.T4World(sx, ver, mle, mlc, mfs, oldlen, typ=typ, fsci=fsci)
+    w = worlds.T4World(sx, ver, mle, mlc, mfs, oldlen, typ=typ, fsci=fsci, aid_v=aid_v)
     n = sx.pick("n", [x for x in lens_for(w.cap, lens)])
     return ndefflow.roundtrip(sx, w, n)
 
@@ -104,7 +104,7 @@ def partitions(tier):
     # ---- NXP products: the vendor class from activate() (GET_VERSION), with
     # the factory lock control TLV (dynamic lock bytes behind the data area)
     for nxp, rsv in (("NTAG213", (160, 2)), ("NTAG215", (520, 2)), ("NTAG216", (896, 2)),
-                     ("MF0UL21", (144, 2))):
+                     ("MF0UL21", (144, 2)), ("NTAG203", (160, 2))):
         if tier == "quick" and nxp in ("NTAG216",):
             continue
         parts.append(dict(name="t2:%s:short" % nxp, fn="t2",
@@ -164,6 +164,10 @@ def partitions(tier):
                           params=dict(ver=ver, mle=[15, 0xFFFF], mlc=[1, 0xFFFF], mfs=16,
                                       oldlens=[0, 3], lens=[0, 1, 7, "cap", "cap+1"],
                                       typ=typ, fsci=fsci)))
+    # NDEF application version 1 (AID ...00): selected after the version 2 AID failed
+    parts.append(dict(name="t4:aid-v1", fn="t4",
+                      params=dict(ver=0x10, mle=[15, 0xFFFF], mlc=[1, 0xFFFF], mfs=16, oldlens=[0, 3],
+                                  lens=[0, 1, 7, "cap", "cap+1"], typ="A", fsci=8, aid_v=1)))
     parts.append(dict(name="t4:20:A:8:big:mlc", fn="t4",
                       params=dict(ver=0x20, mle=[255, 255], mlc=[250, 0xFFFF], mfs=300,
                                   oldlens=[0], lens=[256, "cap"], typ="A", fsci=8)))
